@@ -69,6 +69,31 @@ Theorem C13_clone_independent : forall st a c st1 o1, wf st -> step false st (Cl
 Proof. exact clone_independent. Qed.
 Print Assumptions C13_clone_independent.
 
+(* the same for maps (`m.clone()`): a new map holding the entries of the original at that moment; histories
+   that do not operate on one of the two leave that one as it was *)
+Check map_clone_independent : forall st a c st1 o1, wf st -> step false st (MapClone c a) = Ok (st1, o1) ->
+  exists la kv,
+    get_map st a = Ok (la, kv) /\ eget (env st1) c = Some (next st) /\ la <> next st /\
+    hget (hp st1) (next st) = Some (CMap kv) /\ hget (hp st1) la = Some (CMap kv) /\
+    (forall h st2, untouched (next st) st1 h -> exec st1 h = Some st2 -> hget (hp st2) (next st) = Some (CMap kv)) /\
+    (forall h st2, untouched la st1 h -> exec st1 h = Some st2 -> hget (hp st2) la = Some (CMap kv)).
+Theorem C13_map_clone_independent : forall st a c st1 o1, wf st -> step false st (MapClone c a) = Ok (st1, o1) ->
+  exists la kv,
+    get_map st a = Ok (la, kv) /\ eget (env st1) c = Some (next st) /\ la <> next st /\
+    hget (hp st1) (next st) = Some (CMap kv) /\ hget (hp st1) la = Some (CMap kv) /\
+    (forall h st2, untouched (next st) st1 h -> exec st1 h = Some st2 -> hget (hp st2) (next st) = Some (CMap kv)) /\
+    (forall h st2, untouched la st1 h -> exec st1 h = Some st2 -> hget (hp st2) la = Some (CMap kv)).
+Proof. exact map_clone_independent. Qed.
+Print Assumptions C13_map_clone_independent.
+
+(* non-vacuity of the map statement: after m2 = m.clone(), writes through m do not show in m2 and vice versa *)
+Example C13_map_clone_nonvacuous :
+  let h := [MapLit 0 [(KStr [97], OLit (VInt 1))]; MapClone 1 0; MapSet 0 (KStr [97]) (OLit (VInt 9));
+            MapSet 1 (KStr [98]) (OLit (VInt 2)); MapGet 0 (KStr [97]); MapGet 1 (KStr [97]); MapLen 0; MapLen 1] in
+  spec_run h = run false h /\ defined (snd (spec_run h)) /\
+  fst (run false h) = [ObsVal (OInt 9); ObsVal (OInt 1); ObsVal (OInt 1); ObsVal (OInt 2)].
+Proof. vm_compute. repeat split. Qed.
+
 (* the state of every history is well formed (the hypothesis of C13_clone_independent) *)
 Check step_wf : forall st c st' os, wf st -> step false st c = Ok (st', os) -> wf st' /\ (next st <= next st')%N.
 Check wf0 : wf st0.
